@@ -75,6 +75,11 @@ async fn run(mut s: Sim, mut rng: Rng, _len: usize) -> Sim {
             let ix = s.rd_finalize_rewards(&g.payer, e); s.op(tx(vec![ix])).await;
             // the rogue swap program buys the SOL with 500 2Z (transfer_checked + WithdrawSol signed by its own authority)
             let src = K::Ata(b(&g.buyer), b(&K::Mint));
+            // C06: the same purchase with the 2Z paid somewhere else (right mint, wrong destination: the journal's / the reserve's own
+            // 2Z account, the buyer's own account), and with a short payment announced; each must be refused
+            for wrong in [K::Tok2z(b(&K::RdJournal)), K::Tok2z(b(&K::RdConfig)), src.clone()] {
+                let ix = s.rogue_buy(1, &src, &g.buyer, &g.users[8], 500, debt).with_key(2, &wrong); s.op(tx(vec![ix])).await;
+            }
             let ix = s.rogue_buy(1, &src, &g.buyer, &g.users[8], 500, debt); s.op(tx(vec![ix])).await;
             // a third party donates 300 2Z straight into the swap destination
             let ix = s.tok_transfer(&src, &K::Tok2z(b(&K::RdSwapAuth)), &g.buyer, 300); s.op(tx(vec![ix])).await;
